@@ -299,6 +299,7 @@ def judge_c14(spec, gs, tbs, inputs, diags, dumps, maps, tdiffs, byk, jobs, info
             if nvals >= 2: out['distinct'].append(common.sha(g.key(), data)[:12])
             ids = _ARGID.findall(r.events)
             probs = []
+            if r.res == -1: probs.append('parse threw %s (a value was looked up in the wrong slot)' % r.extra[:80])
             if r.objs_alive != 0: probs.append('%d tracked objects not destroyed after the parse' % r.objs_alive)
             if r.payload_live != 0: probs.append('%d values still owned after the result was dropped (leak or double release)' % r.payload_live)
             if r.copies != 0 or 'C' in r.events: probs.append('%d copies of semantic values made by the library' % r.copies)
@@ -361,7 +362,7 @@ def judge_c16(spec, gs, tbs, inputs, diags, dumps, maps, tdiffs, byk, jobs, info
                     k, acts[k:k + 3], want[k:k + 3]), observed=acts[:60], expected=want[:60])
             # reductions in the trace == functor log
             rlog = [int(x) for x in re.findall(r'(?:^|;)[rx](\d+)[\[(]', base.events)]
-            rtrace = [a[1] for a in acts if a[0] == 'red' and g.rules[a[1]].ftor in ('f', 'x')] if all(a[0] != 'red' or a[1] < len(g.rules) for a in acts) else None
+            rtrace = [a[1] for a in acts if a[0] == 'red' and (g.rules[a[1]].ftor in ('f', 'x') or g.rules[a[1]].ftor[0] == 'c')] if all(a[0] != 'red' or a[1] < len(g.rules) for a in acts) else None
             if rtrace is not None and rlog != rtrace:
                 viol(out, g, data, 1, 'reductions in the verbose trace %s differ from the functor calls %s' % (rtrace[:20], rlog[:20]))
             # recognised terms: every Recognized line names the pending term at its position
